@@ -879,6 +879,40 @@ namespace bloch::compiler {
                 throw BlochError(ErrorCategory::Semantic, line, column,
                                  "initialiser for '" + name + "' cannot be null");
             }
+            // 'Array literals type-check all elements' (semantics.md): int[] takes int, long,
+            // bit and float; float[] takes float, int, long and bit; every other primitive
+            // element type takes only itself; null and class values never fit.
+            auto* lit = dynamic_cast<ArrayLiteralExpression*>(initializer);
+            auto* elemPrim = dynamic_cast<PrimitiveType*>(arr->elementType.get());
+            if (lit && elemPrim) {
+                const ValueType want = typeFromString(elemPrim->name);
+                for (auto& el : lit->elements) {
+                    if (!el)
+                        continue;
+                    TypeInfo got = inferTypeInfo(el.get());
+                    bool ok = true;
+                    if (got.value == ValueType::Null || got.value == ValueType::Void)
+                        ok = false;
+                    else if (!got.className.empty())
+                        ok = got.isTypeParam;
+                    else if (got.value != ValueType::Unknown) {
+                        const bool numericish = got.value == ValueType::Int ||
+                                                got.value == ValueType::Long ||
+                                                got.value == ValueType::Bit ||
+                                                got.value == ValueType::Float;
+                        if (want == ValueType::Int || want == ValueType::Long ||
+                            want == ValueType::Float)
+                            ok = numericish;
+                        else
+                            ok = got.value == want;
+                    }
+                    if (!ok) {
+                        throw BlochError(ErrorCategory::Semantic, el->line > 0 ? el->line : line,
+                                         el->line > 0 ? el->column : column,
+                                         "array literal element of type '" + typeLabel(got) +
+                                             "' does not fit '" + elemPrim->name + "[]'");
+                    }
+                }
         }
 
         if (auto call = dynamic_cast<CallExpression*>(initializer)) {
